@@ -96,11 +96,12 @@ type Options struct {
 	MaxDepth    int // call depth
 	MaxPaths    int // safety cap (0 = none); exceeding it is reported as a bound failure
 	Timeout     time.Duration
+	AfterViol   time.Duration // stop exploring this long after the first candidate outside the known findings (0 = never)
 	SolverTO    time.Duration
 	Concrete    *Assignment // concrete mode: follow this assignment (differential validation)
 	TraceSolver bool
 	Verbose     bool
-	MaxViol     int // stop collecting after this many violations per label
+	MaxViol     int    // stop collecting after this many violations per label
 	Solver      string // "z3" (default, /usr/bin/z3 4.8.12), "z3-new" (5.1.0) or "cvc5": used by `symgo crosscheck`
 }
 
@@ -141,19 +142,20 @@ type Result struct {
 
 // Engine is shared by all workers of one exploration.
 type Engine struct {
-	Prog    *ssa.Program
-	Pkg     *ssa.Package
-	Fn      *ssa.Function
-	Opt     Options
-	mu      sync.Mutex
-	cond    *sync.Cond
-	queue   [][]Decision
-	idle    int
-	done    bool
-	res     *Result
-	cov     map[*ssa.Function]map[ssa.Instruction]bool
-	start   time.Time
-	violCnt map[string]int
+	Prog      *ssa.Program
+	Pkg       *ssa.Package
+	Fn        *ssa.Function
+	Opt       Options
+	mu        sync.Mutex
+	cond      *sync.Cond
+	queue     [][]Decision
+	idle      int
+	done      bool
+	res       *Result
+	cov       map[*ssa.Function]map[ssa.Instruction]bool
+	start     time.Time
+	violCnt   map[string]int
+	firstViol time.Time
 }
 
 // Worker is one explorer goroutine.
@@ -175,7 +177,7 @@ type Worker struct {
 	nameCount  map[string]int
 	usedUF     bool
 	observes   []string
-	pathViol   int // violations reported on the current path
+	pathViol   int                  // violations reported on the current path
 	domains    map[*sym.Term]string // symbolic bytes with a known finite alphabet
 	knownSites map[string]string    // panic site substring -> known-finding id
 	knownHit   map[string]*sym.Term // known-finding predicates true on this path (id -> cond term or nil=concrete true)
@@ -641,7 +643,12 @@ func (w *Worker) reportViolation(kind, label string, extra *sym.Term, fr *frame)
 	if fr != nil {
 		v.Stack = w.interp.stackStrings()
 	}
-	eng.note(func(res *Result) { res.Violations = append(res.Violations, v) })
+	eng.note(func(res *Result) {
+		res.Violations = append(res.Violations, v)
+		if known == "" && eng.firstViol.IsZero() {
+			eng.firstViol = time.Now()
+		}
+	})
 }
 
 // assertV implements verifAssert.
@@ -844,6 +851,19 @@ func (w *Worker) close() {
 
 func (w *Worker) runPath(prefix []Decision) {
 	e := w.eng
+	// once a candidate outside the known findings exists, exploration goes on for a while (other
+	// violations, other panic sites) but not without end: the verdict is decided already
+	if e.Opt.AfterViol > 0 {
+		stop := false
+		e.note(func(res *Result) { stop = !e.firstViol.IsZero() && time.Since(e.firstViol) > e.Opt.AfterViol })
+		if stop {
+			e.note(func(res *Result) {
+				res.Truncated = true
+				res.Budget["stopped some time after the first candidate violation; remaining paths not explored"]++
+			})
+			return
+		}
+	}
 	if e.Opt.Timeout > 0 && time.Since(e.start) > e.Opt.Timeout {
 		e.note(func(res *Result) {
 			res.Truncated = true
